@@ -683,6 +683,18 @@ pub fn gen_iter_c04(tier: &str, rng: &mut Rng, w: &mut dyn Write) {
             emit_iter(w, &IterCase { mode: "digest", nextra: 1, flop, scope: Some((cuts[j].0, cuts[j].1, cuts[j + 1].0, cuts[j + 1].1)), rescope: false, ranges: ranges.clone() });
         }
     }
+    // EVERY position as scope end (from the start) and as scope start (to the terminal), one cheap single-combo player
+    {
+        let r1: Vec<Vec<(usize, u32)>> = vec![vec![(combo_code(7, 30), 0x3F800000)]];
+        for t in 0..48 {
+            for r in (t + 1)..49 {
+                if thorough || (t * 49 + r) % 5 == 0 {
+                    emit_iter(w, &IterCase { mode: "digest", nextra: 0, flop: [2, 26, 50], scope: Some((0, 1, t, r)), rescope: false, ranges: r1.clone() });
+                    emit_iter(w, &IterCase { mode: "digest", nextra: 0, flop: [2, 26, 50], scope: Some((t, r, 48, 49)), rescope: false, ranges: r1.clone() });
+                }
+            }
+        }
+    }
     // every start at the first/last positions of each row against a fixed end, and every end against a fixed start
     let ranges: Vec<Vec<(usize, u32)>> = vec![vec![(combo_code(3, 17), 0x3F800000), (combo_code(4, 40), 0x3F000000)]];
     for t in 0..48 {
